@@ -37,7 +37,9 @@
 (* function, derive a child reference (`&mut T -> &mut U`, `&mut T -> &U`),*)
 (* use / drop the child; later (same engine, any time) use whatever was    *)
 (* stashed.  The host may lend the same or another object again while an   *)
-(* old stash exists.                                                       *)
+(* old stash exists.  With Threads: SPark starts a use on a SCRIPT THREAD  *)
+(* that blocks inside the host method (spawn-native-thread), SRelease lets *)
+(* it finish; a lending call must not end under such a use.                *)
 (*                                                                         *)
 (* Scheduling.  Uses do not change the state of the model, so they are not *)
 (* CHOSEN: after every action the step Observe performs EVERY use that is  *)
@@ -92,7 +94,12 @@
 (*     tested by every derivation because both shapes take `&mut SELF`).   *)
 (*  D3 the host does not reset r<g>_<k> after the call (the documented     *)
 (*     pattern in docs/src/patterns/context.md does not): the stale global *)
-(*     is one more retention path.                                         *)
+(*     is one more retention path.  run_with_reference does reset it.      *)
+(*  D4 while a use is parked on a script thread the model neither binds a  *)
+(*     global nor evaluates a definition (both stop the world in Steel and *)
+(*     wait for the parked thread: C15/C16), and observes no other use of  *)
+(*     the same object (Steel blocks on the write lock instead of refusing:*)
+(*     the finding recorded for the same-handle-twice call).               *)
 (***************************************************************************)
 EXTENDS Integers, Sequences, FiniteSets, TLC, Json
 
